@@ -71,7 +71,11 @@ def _run_case(args):
         chk = Check(prop, "selftest", str(tmp))
         err = None
         try:
-            mod.run(Repo(tmp), chk)
+            r_ = Repo(tmp)
+            mod.run(r_, chk)
+            from rules.common import cache_audit
+
+            cache_audit(r_, chk, prop)
         except AnalysisError as e:
             err = str(e)
         except Exception as e:  # noqa
